@@ -808,6 +808,10 @@ def run_overflow(chk, spec):
 	o = call(target.__setitem__, key, spec["value"]) if not spec["in_table"] or spec["key"][0] != "int" else call(t.__setitem__, (spec["key"][1], 0), spec["value"])
 	chk.judged("assign-fault", ("overflow", spec["key"][0], spec["in_table"], type(spec["value"]).__name__))
 	after = snapshot(target)
+	if not o.ok and spec.get("narrower_value") and type(o.exc).__name__ != "SerifTypeError":
+		# (the VALUE is the huge int, of a kind the column already covers: nothing needs converting, a list takes it as it is)
+		chk.fail("a value the column's kind covers is stored as list assignment stores it", f"assign/raises/{spec['key'][0]}/huge-int-into-wider-column/{type(o.exc).__name__}", f"{spec!r}: raised {o!r}")
+		return
 	if not o.ok:
 		if after != before or call(target.fingerprint).value != fpb:
 			field = "contents" if after[0] != before[0] else ("dtype" if after[1] != before[1] else "fingerprint")
@@ -816,6 +820,8 @@ def run_overflow(chk, spec):
 			return
 		# and it still behaves like the int column it is
 		o2 = call(target.__setitem__, 0, 7)
+		if spec.get("narrower_value"):
+			return
 		if not o2.ok or target._underlying[0] != 7 or type(target._underlying[0]) is not int:
 			chk.fail("an assignment that fails for any reason leaves the vector exactly as it was", f"assign/not-atomic/{spec['key'][0]}/promotion-overflow/later-write-differs",
 				f"{spec!r}: after the failed promotion v[0] = 7 gave {o2!r}, vector {short(snapshot(target), 120)}")
@@ -841,6 +847,70 @@ def run_overflow(chk, spec):
 		got = after[0]
 		if len(got) != len(model) or any((a is None) != (b is None) or (a is not None and a != b) for a, b in zip(got, model)):
 			chk.fail("assignment leaves exactly the contents list assignment would produce", f"assign/contents/{spec['key'][0]}/overflow", f"{spec!r}: {short(got, 120)} vs list model {short(model, 120)}")
+
+
+def run_written_key(chk, spec):
+	"""the key is a vector that was itself written to before (a mask that held a None for a while and is still flagged nullable, an index vector that was
+	promoted and narrowed again): the assignment is either refused - vector untouched - or does what list assignment does for the key's CURRENT cells read as
+	what they are (booleans select, they are not positions)"""
+	vals = list(spec["values"])
+	n = len(vals)
+	v = Vector(list(vals), name="v")
+	pattern = [bool(b) for b in spec["pattern"]][:n] + [False] * max(0, n - len(spec["pattern"]))
+	how = spec["how"]
+	if how == "mask-was-none":
+		key = Vector(list(pattern))
+		key[0] = None
+		key[0] = pattern[0]
+	elif how == "mask-in-table-was-none":
+		kt = Table({"m": list(pattern), "o": list(range(n))})
+		kt[0, "m"] = None
+		kt[0, "m"] = pattern[0]
+		key = kt["m"]
+	elif how == "mask-built-nullable":
+		key = Vector(list(pattern) + [None])[0:n]
+	else:      # index vector that held a None for a while
+		idxs = [i for i, b in enumerate(pattern) if b] or [0]
+		key = Vector(list(idxs))
+		key[0] = None
+		key[0] = idxs[0]
+		pattern = [i in idxs for i in range(n)]
+	before = snapshot(v)
+	newv = spec["value"]
+	o = call(v.__setitem__, key, newv)
+	chk.judged("assign-fault", ("written-key", how, n, sum(pattern)))
+	after = snapshot(v)
+	if not o.ok:
+		if after != before:
+			chk.fail("an assignment that fails for any reason leaves the vector exactly as it was", f"assign/not-atomic/written-key/{how}", f"{spec!r}: raised {o!r}; before {short(before, 120)} after {short(after, 120)}")
+		return
+	model = [newv if b else x for x, b in zip(vals, pattern)]
+	if not M.same_list(list(after[0]), model):
+		chk.fail("assignment leaves exactly the contents list assignment would produce", f"assign/contents/written-key/{how}", f"{spec!r}: key cells {list(key._underlying)!r}: vector {short(after[0], 120)}, expected {short(model, 120)} (or a refusal)")
+
+
+def run_full_slice_then_write(chk, spec):
+	"""w = v[<slice covering all of v>] is a vector of its own: v[key] = value and w[key] = value, with both alive, produce the list-assignment result in the one written and leave the other alone"""
+	vals = list(spec["values"])
+	n = len(vals)
+	v = Vector(list(vals), name="v")
+	sl = {"[:]": slice(None), "[0:]": slice(0, None), "[:n]": slice(None, n), "[-n:]": slice(-n, None), "[::1]": slice(None, None, 1), "[-99:99]": slice(-99, 99)}[spec["slice"]]
+	w = v[sl]
+	target, other = (w, v) if spec["side"] == "slice" else (v, w)
+	key = build_key(spec["key"])
+	o = call(target.__setitem__, key, spec["value"])
+	chk.judged("assign-fault", ("full-slice-then-write", spec["slice"], spec["side"], spec["key"][0]))
+	if not o.ok:
+		chk.fail("a slice is a vector of its own and takes the assignment", f"assign/raises/full-slice-then-write/{spec['side']}/{type(o.exc).__name__}", f"{spec!r}: raised {o!r}")
+		return
+	model = list(vals)
+	k = spec["key"]
+	if k[0] == "int":
+		model[k[1]] = spec["value"]
+	else:
+		model[slice(*k[1])] = spec["value"]
+	if not M.same_list(list(target._underlying), model) or not M.same_list(list(other._underlying), vals):
+		chk.fail("assignment leaves exactly the contents list assignment would produce", f"assign/contents/full-slice-then-write/{spec['side']}", f"{spec!r}: written {short(list(target._underlying), 100)} (model {short(model, 100)}), the other {short(list(other._underlying), 100)} (was {short(vals, 100)})")
 
 
 def run_selfmask(chk, spec):
@@ -989,7 +1059,7 @@ def run_mask_reuse(chk, spec):
 			return
 
 
-RUNNERS = {"cross_kind_equal": run_cross_kind_equal, "mask_reuse": run_mask_reuse, "own_source": run_own_source, "badmask": run_badmask, "selfmask": run_selfmask, "sequence": run_sequence, "overflow": run_overflow, "assign": run_assign, "iterfault": run_iterfault, "table_assign": run_table_assign, "rename": run_rename, "rename_fault": run_rename_fault, "shared_refusal": run_shared_refusal, "unprintable_value": run_unprintable_value, "table_special_forms": run_table_special_forms, "narrower_subclass": run_narrower_subclass}
+RUNNERS = {"written_key": run_written_key, "full_slice_then_write": run_full_slice_then_write, "cross_kind_equal": run_cross_kind_equal, "mask_reuse": run_mask_reuse, "own_source": run_own_source, "badmask": run_badmask, "selfmask": run_selfmask, "sequence": run_sequence, "overflow": run_overflow, "assign": run_assign, "iterfault": run_iterfault, "table_assign": run_table_assign, "rename": run_rename, "rename_fault": run_rename_fault, "shared_refusal": run_shared_refusal, "unprintable_value": run_unprintable_value, "table_special_forms": run_table_special_forms, "narrower_subclass": run_narrower_subclass}
 
 COLKINDS = ["bool", "int", "float", "complex", "str", "date", "datetime", "object", "bytes"]
 
@@ -1170,7 +1240,24 @@ def run(chk):
 		for vals in ([1, 2, 3], ["p", "q"], [1.5, None]):
 			for keyspec, value, vform in ((("int", 0), vals[-1], "scalar"), (("slice", (None, None, None)), list(reversed(vals)), "list"), (("idx-list", [0]), [vals[-1]], "list"), (("mask-list", [True] + [False] * (len(vals) - 1)), vals[-1], "scalar")):
 				chk.case("assign", {"values": vals, "key": keyspec, "vform": vform, "value": value, "duplicate": dup}, "assign-duplicate")
+	for how in ("mask-was-none", "mask-in-table-was-none", "mask-built-nullable", "index-vector-was-none"):
+		for vals, value in (([10, 20, 30, 40], 99), (["a", "b", "c"], "z"), ([1.5, None, 2.5, 3.5, 4.5], 0.25)):
+			for pattern in ([1, 0, 1, 0, 0], [0, 0, 1, 1, 0], [1, 1, 1, 1, 1], [0, 1, 0, 0, 0], [0, 0, 0, 1, 0]):
+				chk.case("written_key", {"how": how, "values": vals, "value": value, "pattern": pattern}, "assign-written-key")
+	for sl in ("[:]", "[0:]", "[:n]", "[-n:]", "[::1]", "[-99:99]"):
+		for side in ("slice", "source"):
+			for vals, value in (([1, 2, 3], 9), (["p", "q"], "z"), ([1.5, None], 2.5)):
+				for keyspec, val in ((("int", 0), value), (("slice", (0, 1, None)), [value])):
+					chk.case("full_slice_then_write", {"slice": sl, "side": side, "values": vals, "key": keyspec, "value": val}, "assign-full-slice")
 	huge = [10 ** 400, -(10 ** 400), 2 ** 1024]
+	for h in huge:
+		for vals in ([1.5, 2.5], [1j, 2 + 0j], [1j, None, 0.5], [1, 2]):
+			n_ = len(vals)
+			for keyspec, value in ((("int", 0), h), (("int", n_ - 1), h), (("slice", (None, None, None)), [h] * n_), (("slice", (0, 2, None)), [2j, h]), (("slice", (0, 2, None)), [h, 2j]), (("idx-list", [0]), [h]), (("mask-list", [True] + [False] * (n_ - 1)), h)):
+				if vals == [1, 2] and not isinstance(value, list):
+					continue
+				for in_table in (False, True):
+					chk.case("overflow", {"values": vals, "key": keyspec, "value": value, "in_table": in_table, "cached": False, "narrower_value": True}, "assign-overflow-narrower-value")
 	for h in huge:
 		for vals in ([h, 1], [1, h, None], [h]):
 			for keyspec, value in ((("int", 0), 0.5), (("int", len(vals) - 1), 1j), (("slice", (None, None, None)), [0.5] * len(vals)), (("idx-list", [0]), [2.5]), (("mask-list", [True] + [False] * (len(vals) - 1)), 0.25)):
